@@ -202,6 +202,7 @@ func Main(id, level string, run func(c *Ctx), replay ReplayFunc) {
 	}
 	run(c)
 	if PostRun != nil {
+		watchdogPaused.Store(true)
 		PostRun(c)
 	}
 	os.Exit(c.Finish())
@@ -217,6 +218,8 @@ func Main(id, level string, run func(c *Ctx), replay ReplayFunc) {
 // violation of class "hang".  The clock only nominates; the verdict is the isolated re-run.
 
 type doing struct{ input interface{} }
+
+var watchdogPaused atomic.Bool
 
 var (
 	inflight  sync.Map // worker / shard index -> doing; Parallel forgets a shard when it is finished
@@ -237,6 +240,10 @@ func (c *Ctx) watchdog() {
 	last, stalled := int64(-1), 0
 	for {
 		time.Sleep(5 * time.Second)
+		if watchdogPaused.Load() {
+			stalled = 0 // the pass that runs now has budgets and a stall detector of its own (child processes of the E1 engine)
+			continue
+		}
 		if n := c.evals.Load(); n != last {
 			last, stalled = n, 0
 			continue
